@@ -40,7 +40,7 @@ CHECKS = {
     "C04": (
         "model_checking",
         "explicit enumeration of all write histories up to depth 3/4 x matching read histories on the real EoWriter/EoReader (depth-bounded E1)",
-        "Every sequence of typed writes from a ~100-op menu (+ trailing strings, a length ladder up to 300 characters) is written and read back on the real classes; the output is also taken after every write, with a reader kept alive over it, and must still read back what had been written; the oracle is the property's own round-trip statement.",
+        "Every sequence of typed writes from a ~100-op menu (+ trailing strings, length and padding ladders up to 65537 characters, and the character sweep: every Unicode code point and every base x combining-mark pair through every string method) is written and read back on the real classes; the output is also taken after every write, with a reader kept alive over it, and must still read back what had been written; the oracle is the property's own round-trip statement.",
         "Depth bound 3/4; menu values at digit boundaries; excluded characters exactly as the statement excludes.",
         "DESIGN.md section 6 C04",
         "E1",
@@ -48,7 +48,7 @@ CHECKS = {
     "C06": (
         "model_checking",
         "explicit enumeration of chunk lists (write histories) x per-chunk read plans on the real writer/reader",
-        "All lists of 1-3 chunks over the stated field menu x every prefix/surplus read plan; in-prefix values and zero/empty surplus reads checked per execution, which implies isolation between chunks.",
+        "All lists of 1-3 chunks over the stated field menu x every prefix/surplus read plan; in-prefix values and zero/empty surplus reads checked per execution, which implies isolation between chunks; plus the character sweep inside chunks, length ladders, lists read through slices, and lists written after a foreign unsanitised writer saw the same strings.",
         "Bounds: <=3 chunks, <=2 fields, <=2 surplus reads; surplus values after a partial prefix not judged.",
         "DESIGN.md section 6 C06",
         "E1",
@@ -56,7 +56,7 @@ CHECKS = {
     "C09": (
         "model_checking",
         "explicit enumeration of writer histories (full menu depth 2/3, reduced menu depth 4/5) in lockstep with the reference writer",
-        "Every history over a 373-op menu incl. every type's limit for every numeric method, all string methods x lengths x padded, mode toggles at arbitrary points; after every step (len, bytes, mode) and accept/ValueError compared with M4.",
+        "Every history over a 373-op menu incl. every type's limit for every numeric method, all string methods x lengths x padded, mode toggles at arbitrary points; after every step (len, bytes, mode) and accept/ValueError compared with M4; two live writers, argument forms, length/padding ladders to 65537 and the character sweep (all 1,114,112 code points + base x combining mark, both modes, all string methods).",
         "Reference M4; non-negative ints and str arguments; depth-bounded.",
         "DESIGN.md section 6 C09",
         "E1",
@@ -68,7 +68,7 @@ CHECKS = {
         "string over a 5/7-symbol alphabet up to length 4/5, under the full public op menu incl. slices of slices (judged "
         "behaviourally); parent/child independence pairs; unobserved 3-op histories with the data given as bytes, bytearray "
         "and memoryview; the TLC state graph of tla/ChunkedReader.tla replayed edge by edge on the real class and on the "
-        "reference model. A fixpoint is a statement about histories of every length over that data.",
+        "reference model; every data string of length 1-2 over all 256 byte values x every read op x both modes; long data (8..65537 bytes). A fixpoint is a statement about histories of every length over that data.",
         "Reference reader M3 is our transcription of the documented model; alphabet and length bound; Python 3.12.",
         "DESIGN.md section 6 C05, section 3 E1/E5",
         "E1",
@@ -92,7 +92,7 @@ CHECKS = {
     "C10": (
         "exploration",
         "exhaustive enumeration: every length 0..600/2000 for the permutations, all bytes/pairs for flip_msb, all divisibility patterns up to length 10/12 x every multiple, all 3-step pipelines",
-        "Complete coverage of the stated finite input families for each primitive, compared with M5 and with the algebra in the property (inverse, involution, multiset, positions of non-multiples).",
+        "Complete coverage of the stated finite input families for each primitive, compared with M5 and with the algebra in the property (inverse, involution, multiset, positions of non-multiples); multiples beyond the byte range and the complete (multiple, byte value) divisibility table.",
         "Reference M5 transcribes the docstrings; inputs beyond the enumerated families are not explored.",
         "DESIGN.md section 6 C10",
         "E4",
@@ -124,9 +124,9 @@ CHECKS = {
     ),
     "C14": (
         "model_checking",
-        "explicit enumeration of construction histories (depth 3/4) over 3 enum classes x 17 integers on fresh classes and a freshly reloaded metaclass; public class snapshot compared after each step",
+        "explicit enumeration of construction histories (depth 3/4) over 4 hand-written enum classes x 17 integers on fresh classes and a freshly reloaded metaclass, and over 34 enums produced by the real generator (every underlying type, every declaration order of a 4-ordinal set, out-of-order and signed ordinals); public class snapshot compared after each step",
         "All histories up to the depth bound without deduplication; M8 oracle per construction, enum class observations unchanged, declared ordinals still resolve.",
-        "Python 3.12 enum internals; hand-written enum declarations (generated enums are exercised through the spec pipeline checks).",
+        "Python 3.12 enum internals; generated enums get histories of depth <= 2 and a read-then-write survival phase.",
         "DESIGN.md section 6 C14",
         "E1",
     ),
@@ -149,14 +149,14 @@ CHECKS = {
     "C17": (
         "exploration",
         "bounded program enumeration: every grammar body the independent rule set M9 classifies invalid + every single rule-violating edit of a catalogue at every eligible site of every valid program, run through the real generator",
-        "All M9-invalid bodies of the tier grammar and the complete single-edit neighbourhood (unit-level edits judged via M9, tree-level edits ill-formed by construction) must make the generator raise.",
+        "All M9-invalid bodies of the tier grammar and the complete single-edit neighbourhood (unit-level edits judged via M9, tree-level edits ill-formed by construction) must make the generator raise - a fresh generator object and one that has just generated the unedited tree.",
         "M9 is our transcription of the grammar rules (Appendix D); quick tier edits a stated subset of the base programs.",
         "DESIGN.md section 6 C17",
         "E3",
     ),
     "C18": (
         "exploration",
-        "exhaustive enumeration of configurations: every os.walk directory order (choice tree) x iteration-order policies x pre-populated output states x repeated runs in-process, 8 hash seeds through the real protocol.py in subprocesses, then import checks in fresh interpreters; plus generate+import of every valid program of the spec universe",
+        "exhaustive enumeration of configurations: every os.walk directory order (choice tree) x iteration-order policies x pre-populated output states x repeated runs x six spellings of the input/output directories in-process, 8 hash seeds through the real protocol.py in subprocesses, then import checks in fresh interpreters; plus generate+import of every valid program of the spec universe",
         "All directory-order permutations and all stated iteration policies for each tree, byte-identical output required; every declared type checked in a fresh interpreter; every valid program of the E3 universe must generate and import.",
         "Hash seeds limited to a block of 8 per run (block rotated by VERIF_SEED); os.walk and set/sorted ordering are owned through module attributes.",
         "DESIGN.md section 6 C18",
@@ -165,7 +165,7 @@ CHECKS = {
     "C19": (
         "exploration",
         "bounded program x instance x operation-history enumeration on generated classes (setattr of every public name at every nesting level, caller-side list mutation, repeated serialize)",
-        "Every valid body: every value gets the aliasing history on constructed and deserialized instances; the richest values get every history of length <= 2/3 over the full mutation menu.",
+        "Every valid body: every value gets the aliasing history on constructed and deserialized instances; the richest values get every history of length <= 2/3 over the full mutation menu; packets also every history of <= 3/4 steps over write(shared writer) / append to it / write(fresh writer) / serialize.",
         "Public names only; blobs not mutated by the caller; strings made history-unique so process-wide caches cannot mask a change.",
         "DESIGN.md section 6 C19",
         "E3",
